@@ -61,10 +61,12 @@ class MapVal(object):
 class StreamVal(object):
     def __init__(self):
         self.buf = ''
+        self.pieces = []
 
     def clone(self):
         s = StreamVal()
         s.buf = self.buf
+        s.pieces = list(self.pieces)
         return s
 
 
@@ -184,7 +186,7 @@ class Models(object):
             return m_cout_string
         if d.startswith('std::endl(') or d.startswith('std::flush('):
             return lambda ex, args, inst: args[0]
-        m = re.match(r'^std::ostream::(operator<<|precision|width|flush|clear)\((.*)\)( const)?$', d)
+        m = re.match(r'^std::ostream::(operator<<|precision|width|flush|clear|rdbuf|fail|good)\((.*)\)( const)?$', d)
         if m:
             return ostream_method(m.group(1), m.group(2))
         m = re.match(r'^std::(ostringstream|stringstream)::(~?\w+)\((.*)\)( const)?$', d)
@@ -676,13 +678,28 @@ def is_cout(ex, p):
     return r is not None and r.name in ('_ZSt4cout', '_ZSt4cerr')
 
 
+def cout_failed(ex, events=None):
+    """has std::cout been put into a failed state (and not cleared) on this path?  Output to a failed stream is discarded."""
+    for e in reversed(ex.st.events if events is None else events):
+        if e[0] == 'cout-clear':
+            return False
+        if e[0] == 'cout-fail':
+            return True
+    return False
+
+
 def stream_out(ex, p, payload):
     s = ex.st.side.get((p.rid, p.off))
     if isinstance(s, StreamVal):
         s = ex.st.side_mut((p.rid, p.off))
         if not isinstance(payload, str):
-            raise ExecError('non-literal written to a string stream')
+            # a symbolic value (e.g. a symbolic handle name): kept as a piece; str() of such a stream is not modelled
+            s.pieces = list(getattr(s, 'pieces', [])) + [payload]
+            return
         s.buf += payload
+        s.pieces = list(getattr(s, 'pieces', [])) + [payload]
+    elif cout_failed(ex):
+        ex.st.event('cout-dropped', payload)
     else:
         ex.st.event('cout', payload)
 
@@ -716,7 +733,38 @@ def ostream_method(name, sig):
 
     def nothing(ex, args, inst):
         return args[0] if name == 'flush' else None
-    return {'operator<<': out, 'precision': prec, 'width': prec}.get(name, nothing)
+
+    def out_buf(ex, args, inst):
+        # operator<<(streambuf*): inserts the characters of the source buffer; if NONE is inserted (empty source, null pointer) the
+        # stream's failbit is set [ostream.inserters] -- every later insertion is then discarded until clear()
+        src = args[1]
+        sv = ex.st.side.get((src.rid, src.off)) if isinstance(src, Ptr) and src != NULL else None
+        pieces = [x for x in getattr(sv, 'pieces', []) if not (isinstance(x, str) and x == '')] if isinstance(sv, StreamVal) else None
+        if pieces is None and isinstance(sv, StreamVal) and sv.buf:
+            pieces = [sv.buf]
+        if not pieces:
+            if isinstance(ex.st.side.get((args[0].rid, args[0].off)), StreamVal):
+                return args[0]
+            ex.st.event('cout-fail', 'operator<<(streambuf*) inserted no characters')
+            return args[0]
+        for x in pieces:
+            stream_out(ex, args[0], x)
+        return args[0]
+
+    def rdbuf(ex, args, inst):
+        return args[0]          # the stream object stands for its buffer
+
+    def clear(ex, args, inst):
+        if not isinstance(ex.st.side.get((args[0].rid, args[0].off)), StreamVal):
+            ex.st.event('cout-clear')
+        return None
+
+    def failq(ex, args, inst):
+        f_ = cout_failed(ex) and not isinstance(ex.st.side.get((args[0].rid, args[0].off)), StreamVal)
+        return (1 if f_ else 0) if name == 'fail' else (0 if f_ else 1)
+    if name == 'operator<<' and sig.startswith('std::streambuf*'):
+        return out_buf
+    return {'operator<<': out, 'precision': prec, 'width': prec, 'rdbuf': rdbuf, 'clear': clear, 'fail': failq, 'good': failq}.get(name, nothing)
 
 
 def sstream_method(name, sig):
@@ -737,7 +785,7 @@ def sstream_method(name, sig):
         s = ex.st.side_mut((args[0].rid, args[0].off))
         s.buf = get_str(ex, args[1]).v
         return None
-    return {'ostringstream': ctor, 'stringstream': ctor, '~ostringstream': dtor, '~stringstream': dtor, 'str': strm}[name]
+    return {'ostringstream': ctor, 'stringstream': ctor, '~ostringstream': dtor, '~stringstream': dtor, 'str': strm, 'rdbuf': lambda ex, args, inst: args[0]}[name]
 
 
 # ----------------------------------------------------------------------------------------------
